@@ -47,5 +47,27 @@ def run(tier, seed, jobs, family=FAMILY, rule=None):
                             "external cancel()/set() arrive as loop callbacks"]}
 
 
+def add_thread_scenarios(res, family, tier, seed, jobs, what):
+    """Engine-B scenarios (real worker threads under the baton scheduler) that belong to an
+    engine-A property; merged into the same result."""
+    bound = 1 if tier == "quick" else 2
+    cfg = [dict(threads={"bound": bound, "mode": "loop-main"}, eager=False, salt=1)]
+    cov, viol, harness = run_family(family, tier, cfg, jobs,
+                                    max_execs=500 if tier == "quick" else 50000, seed=seed)
+    for v in viol:
+        v["signature"] = v["what"][0].split(":", 1)[-1][:100]
+    res["coverage"]["worker_thread_scenarios"] = {
+        "what": what + f"; every thread schedule with at most {bound} preemption(s) (engine B)",
+        "programs": cov["programs"], "evaluations": cov["evaluations"],
+        "distinct_outcome_classes": cov["distinct_outcome_classes"],
+        "capped_programs": cov["capped_programs"]}
+    res["coverage"]["evaluations"] += cov["evaluations"]
+    res["coverage"]["exhaustive"] = bool(res["coverage"].get("exhaustive") and not viol
+                                         and not cov["capped_programs"])
+    res["violations"].extend(viol)
+    res["harness_errors"].extend(harness)
+    return res
+
+
 def replay(doc):
     return replay_doc(doc)
